@@ -10,6 +10,7 @@ import (
 	"math/big"
 	"os"
 	"testing"
+	"testing/iotest"
 
 	secp "github.com/decred/dcrd/dcrec/secp256k1/v4"
 	"github.com/ipfs/go-cid"
@@ -85,6 +86,30 @@ func runAddr(c *h.Ctx, ac AddrCase) {
 	decs := []dec{
 		{"token.FromSealed", func() (cid.Cid, error) { _, c, err := token.FromSealed(sealed); return c, err }},
 		{"token.FromSealedReader", func() (cid.Cid, error) { _, c, err := token.FromSealedReader(bytes.NewReader(sealed)); return c, err }},
+		// the same stream delivered differently: last chunk together with EOF, one byte at a time, half reads
+		{"token.FromSealedReader/data+EOF", func() (cid.Cid, error) {
+			_, c, err := token.FromSealedReader(iotest.DataErrReader(bytes.NewReader(sealed)))
+			return c, err
+		}},
+		{"token.FromSealedReader/one-byte", func() (cid.Cid, error) {
+			_, c, err := token.FromSealedReader(iotest.OneByteReader(bytes.NewReader(sealed)))
+			return c, err
+		}},
+		{"token.FromSealedReader/half", func() (cid.Cid, error) {
+			_, c, err := token.FromSealedReader(iotest.HalfReader(bytes.NewReader(sealed)))
+			return c, err
+		}},
+	}
+	if d.Dlg != nil {
+		decs = append(decs, dec{"delegation.FromSealedReader/data+EOF", func() (cid.Cid, error) {
+			_, c, err := delegation.FromSealedReader(iotest.DataErrReader(bytes.NewReader(sealed)))
+			return c, err
+		}})
+	} else {
+		decs = append(decs, dec{"invocation.FromSealedReader/data+EOF", func() (cid.Cid, error) {
+			_, c, err := invocation.FromSealedReader(iotest.DataErrReader(bytes.NewReader(sealed)))
+			return c, err
+		}})
 	}
 	if d.Dlg != nil {
 		decs = append(decs,
